@@ -36,12 +36,13 @@ type svJSON struct {
 }
 
 type opT struct {
-	K    string `json:"k"` // view | token | events | offer | register | unregister | enable
-	Slot int    `json:"slot"`
-	Zero bool   `json:"zero,omitempty"` // register with the zero CfgSerial
-	H    int    `json:"h,omitempty"`
-	Msg  *msgT  `json:"msg,omitempty"`
-	Via  string `json:"via,omitempty"` // offer through Blank.SetSource: "static" or "watcher" inner source
+	K       string `json:"k"` // view | token | events | offer | register | unregister | enable
+	Slot    int    `json:"slot"`
+	Zero    bool   `json:"zero,omitempty"` // register with the zero CfgSerial
+	H       int    `json:"h,omitempty"`
+	Msg     *msgT  `json:"msg,omitempty"`
+	InPlace bool   `json:"inplace,omitempty"` // the source mutates the buffer it returned from Value() and reports that same pointer
+	Via     string `json:"via,omitempty"`     // offer through Blank.SetSource: "static" or "watcher" inner source
 }
 
 type label struct {
@@ -569,6 +570,10 @@ func (w *world) execStart(l label) {
 			switch m.K {
 			case "update":
 				v := mkValue(s.typ, toSV(m.V))
+				if op.InPlace && s.buf.IsValid() && !m.V.Bad {
+					fillValue(s.buf.Elem(), toSV(m.V))
+					v = s.buf
+				}
 				var err error
 				if m.Blocking {
 					err = s.wa.BlockingReportNewValue(t.ctx, v)
